@@ -476,7 +476,10 @@ pub fn undecided(e: &rl::OpeningHoursExpression) -> Option<&'static str> {
                         if side.1.wday_offset != ds::WeekDayOffset::None && side.1.day_offset != 0 {
                             return Some("U4:weekday-and-day-offset-combined");
                         }
-                        if side.1.day_offset.abs() > 40 {
+                        // a single date is resolved exactly on the years around the probed one, so
+                        // offsets below a year are decided; a range needs well separated ends
+                        let limit = if start == end && side.1.wday_offset == ds::WeekDayOffset::None { 300 } else { 40 };
+                        if side.1.day_offset.abs() > limit {
                             return Some("U7:large-day-offset");
                         }
                         if date_year(&side.0).is_some_and(|y| y > 9999) {
